@@ -927,6 +927,26 @@ def gen_encconst(repo):
     out.append('end Flac.Gen')
     return '\n'.join(out) + '\n'
 
+def gen_resid(repo):
+    """facts about `write_residuals` that the constant-block clause of C19 rests on"""
+    n = ' '.join(strip_comments(open(os.path.join(repo, 'src/encode.rs')).read()).split())
+    out = ['/- GENERATED by tools/translate.py from src/encode.rs (write_residuals / encode_subframe) — do not edit -/', 'namespace Flac.Gen', '']
+    def need(pat, what):
+        m = re.search(pat, n)
+        if not m:
+            raise ExtractError(f'{what}: expected shape not found')
+        return m
+    zero_const = bool(re.search(r'if partition_sum > 0 \{ let rice = if partition_sum > partition_samples\.into\(\) \{', n)) and \
+        bool(re.search(r'\} else \{ Some\(Partition \{ header: ResidualPartitionHeader::Constant, residuals: partition, \}\) \} \} \}', n))
+    out.append('/-- `Partition::new`: a partition whose residuals are all zero (absolute sum 0) gets the zero-width escape header, nothing else does -/\n'
+               f'def encZeroPartitionIsConstant : Bool := {"true" if zero_const else "false"}\n')
+    all0 = bool(re.search(r'if all_0 \{ constant_output\.clear\(\); encode_constant_subframe\(constant_output, channel\[0\], bits_per_sample, 0\)\?; return Ok\(constant_output\); \}', n))
+    out.append('/-- `encode_subframe`: an all-zero channel is written as a CONSTANT subframe before any search -/\n'
+               f'def encAllZeroIsConstantSubframe : Bool := {"true" if all0 else "false"}\n')
+    m = need(r'fn write_partitions<const RICE_MAX: u32, W: BitWrite>\( writer: &mut W, partitions: ArrayVec<Partition<\'_, RICE_MAX>, MAX_PARTITIONS>, \) -> Result<\(\), Error> \{ writer\.write::<4, u32>\(partitions\.len\(\)\.ilog2\(\)\)\?;', 'write_partitions order field')
+    out.append('end Flac.Gen')
+    return '\n'.join(out) + '\n'
+
 def gen_par(repo):
     """facts about the parallel feature of encode.rs (C18)"""
     n = ' '.join(strip_comments(open(os.path.join(repo, 'src/encode.rs')).read()).split())
@@ -1152,6 +1172,7 @@ GENERATORS = [
     ('EncConst.lean', 'encode.rs option ranges, limits and the declared-length checks', gen_encconst),
     ('Meta.lean', 'metadata constants, cue sheet limits and shape-checked facts', gen_meta),
     ('Par.lean', 'parallel feature facts', gen_par),
+    ('Resid.lean', 'write_residuals facts behind the constant-block clause', gen_resid),
     ('ShapesHdr.lean', 'frame header shapes', gen_shapes_hdr),
     ('ShapesRd.lean', 'reader shapes', gen_shapes_rd),
     ('ShapesEnc.lean', 'encoder-side shapes', gen_shapes_enc),
